@@ -2,8 +2,8 @@
 
 E1: every code point on a small (index, line, column) grid for construction; every range on a 0..G index grid
 (pairs and triples exhaustively) for the order / containment / overlap / hull laws; every range x 3 sources for
-get_raw(); every tuple of <= 4 operands over a 10-origin alphabet (no origin, overlapping / touching / disjoint code
-origins, another source, generated, XML, an existing flat multi-origin) for merge_origins, concat_origins and
+get_raw(); every tuple of <= 4 operands over an 11-origin alphabet (no origin, overlapping / touching / disjoint code
+origins, one whose points carry other line / column labels, another source, generated, XML, an existing flat multi-origin) for merge_origins, concat_origins and
 left-folded +, compared with a reference fold written from the statement.
 """
 from __future__ import annotations
@@ -35,11 +35,12 @@ PID = "C15"
 RULE = (
     "points: all (index, line, column) in [-1..G] x [0..2] x [-1..1]; ranges: all ordered index pairs on 0..G incl. ill-formed; "
     "all pairs and triples of well-formed ranges for the laws; every range on texts of length 0, 3, 6 and a non-text source for "
-    "get_raw; all operand tuples of length <= 4 over 10 origins for merge / concat / +.  states = distinct operand tuples and "
+    "get_raw; all pairs also with every labelling of the end points (same index, other line / column); all operand tuples of length <= 4 over 11 origins for merge / concat / +.  states = distinct operand tuples and "
     "range tuples; transitions = law instances / operations evaluated against the reference; non-trivial = operand tuples whose "
     "reference result is a MultiOrigin or a coalesced CodeOrigin (not simply one operand or NoOrigin)"
 )
-ASSUMPTIONS = ["points used in the laws have line/column determined by their index (two points with one index and different columns are outside the laws)"]
+ASSUMPTIONS = ["two points with one index and different line / column labels are the same position for every law (ordered by index); "
+               "which of the two labels a hull carries is not specified and not compared"]
 G = {"quick": 5, "thorough": 7}
 NSHARDS = 16
 
@@ -50,6 +51,19 @@ def P(i):
 
 def R(a, b):
     return CodeRange(P(a), P(b))
+
+
+def PV(i, v):
+    """Point at index i; v=1 labels the same index as 'column 0 of the next line' (what a tokenizer that counts the
+    position after a newline differently produces).  Points are ordered by index, so P(i) and PV(i, 1) are one position."""
+    return CodePoint(i, 1, i) if v == 0 else CodePoint(i, 2, 0)
+
+
+def RV(x, v):
+    return CodeRange(PV(x[0], v[0]), PV(x[1], v[1]))
+
+
+VARIANTS = [(0, 0), (0, 1), (1, 0), (1, 1)]
 
 
 def check_points(rec, g):
@@ -74,6 +88,18 @@ def check_points(rec, g):
             got = False
         if got is not (a <= b):
             rec.violation("C15|range|construction", {"range": [a, b]}, f"CodeRange {a}-{b} {'accepted' if got else 'rejected'}")
+        for va, vb in VARIANTS[1:]:
+            rec.count("transitions"); rec.count("traces"); rec.count("evaluations")
+            p, q = PV(a, va), PV(b, vb)
+            if (p < q) is not (a < b) or (p <= q) is not (a <= b) or (p > q) is not (a > b) or (p >= q) is not (a >= b):
+                rec.violation("C15|point|order", {"a": a, "b": b, "labels": [va, vb]}, "code points with different line / column labels are not ordered by index")
+            try:
+                CodeRange(p, q)
+                got = True
+            except ValueError:
+                got = False
+            if got is not (a <= b):
+                rec.violation("C15|range|construction", {"range": [a, b], "labels": [va, vb]}, f"CodeRange {a}-{b} {'accepted' if got else 'rejected'} (end points labelled differently)")
 
 
 def check_range_laws(rec, g, k, of):
@@ -104,6 +130,30 @@ def check_range_laws(rec, g, k, of):
         if (a in b) and (b in a) and a != b:
             rec.violation("C15|range|antisymmetry", case, "containment is not antisymmetric")
         rec.outcome(f"contains:{cont} overlaps:{ov}")
+        # the same laws when the end points carry other line / column labels for the same indexes
+        for vx, vy in itertools.product(VARIANTS, repeat=2):
+            if vx == vy == (0, 0):
+                continue
+            rec.count("transitions"); rec.count("traces"); rec.count("evaluations")
+            case = {"a": list(x), "b": list(y), "labels": [list(vx), list(vy)]}
+            try:
+                a, b = RV(x, vx), RV(y, vy)
+            except ValueError:
+                rec.violation("C15|range|construction", case, "a well-formed range (start index <= end index) was rejected")
+                continue
+            if (a in b) is not cont:
+                rec.violation("C15|range|contains", case, f"a in b is {a in b}, reference {cont}")
+            if a.overlaps(b) is not ov or b.overlaps(a) is not ov:
+                rec.violation("C15|range|overlaps", case, f"overlaps is {a.overlaps(b)}/{b.overlaps(a)}, reference {ov} (touching ranges overlap, symmetric)")
+            if (a < b) is not (x[1] < y[0]) or (a <= b) is not (x[1] <= y[0]):
+                rec.violation("C15|range|order", case, "a < b must mean a ends before b starts")
+            try:
+                h, h2 = a + b, b + a
+            except ValueError:
+                rec.violation("C15|range|hull", case, "the hull of two well-formed ranges was rejected")
+                continue
+            if (h.start.index, h.end.index) != hx or (h2.start.index, h2.end.index) != hx or a not in h or b not in h:
+                rec.violation("C15|range|hull", case, f"hull is {h.start.index}-{h.end.index}, reference {hx[0]}-{hx[1]} (contains both, commutative)")
     for x, y, z in itertools.product(rs, repeat=3):
         idx += 1
         if idx % of != k:
@@ -141,6 +191,7 @@ def alphabet():
         "c13": CodeOrigin(s6, R(1, 3)),     # overlaps c02
         "c24": CodeOrigin(s6, R(2, 4)),     # touches c02
         "c56": CodeOrigin(s6, R(5, 6)),     # disjoint from the others
+        "v23": CodeOrigin(s6, RV((2, 3), (1, 1))),   # touches c02 / overlaps c13, c24; its points carry other line / column labels
         "d02": CodeOrigin(s3, R(0, 2)),     # same range, other source
         "gen": GeneratedCodeOrigin(s3),     # a CodeOrigin subclass at 0-0 on s3: touches d02
         "xml": XMLFileOrigin(sb, XMLPath("/a/b")),
@@ -191,13 +242,13 @@ def realise(r):
     if r[0] == "none":
         return NO_ORIGIN
     if r[0] == "code":
-        return CodeOrigin(r[1], R(*r[2]))
+        return CodeOrigin(r[1], R(*r[2]))   # labels of the hull points are unspecified: _oeq compares them by index
     return MultiOrigin(origins=list(r[1]))
 
 
 def fits(got, r) -> str | None:
     if r[0] == "same":
-        return None if got is r[1] or got == r[1] else f"expected the operand itself ({_n(r[1])}), got {_n(got)}"
+        return None if got is r[1] or _oeq(got, r[1]) else f"expected the operand itself ({_n(r[1])}), got {_n(got)}"
     if r[0] == "none":
         return None if got is NO_ORIGIN else f"expected NoOrigin, got {_n(got)}"
     if r[0] == "code":
@@ -210,7 +261,7 @@ def fits(got, r) -> str | None:
     members = r[1]
     if not isinstance(got, MultiOrigin):
         return f"expected a MultiOrigin of {len(members)} members, got {_n(got)}"
-    if len(got.origins) != len(members) or any(g != m for g, m in zip(got.origins, members)):
+    if len(got.origins) != len(members) or any(not _oeq(g, m) for g, m in zip(got.origins, members)):
         return f"members {[_n(x) for x in got.origins]} differ from the non-empty operands in order {[_n(x) for x in members]}"
     if any(isinstance(x, (MultiOrigin, NoOrigin)) for x in got.origins):
         return "multi-origin is nested or contains NoOrigin"
@@ -220,7 +271,7 @@ def fits(got, r) -> str | None:
             return "source must be the common source"
     elif not isinstance(got.source, SourceSet) or list(got.source.sources) != srcs:
         return "source must be a SourceSet in operand order"
-    if not isinstance(got.position, PositionSet) or list(got.position.positions) != [m.position for m in members]:
+    if not isinstance(got.position, PositionSet) or len(got.position.positions) != len(members) or any(not _peq(p, m.position) for p, m in zip(got.position.positions, members)):
         return "position set must list the members' positions in order"
     # fqn composes the members' fqns: every member's position fqn occurs, in operand order
     pos = 0
@@ -309,7 +360,7 @@ def _one_case(rec, case, ops, fq):
     for fname, fn in (("concat_origins", lambda: concat_origins(*ops)), ("+", lambda: _fold(ops))):
         try:
             got = fn()
-            msg = fits(got, rr) if rr[0] != "same" or len(ops) == 1 else (None if got == acc else f"expected {_n(acc)}, got {_n(got)}")
+            msg = fits(got, rr) if rr[0] != "same" or len(ops) == 1 else (None if _oeq(got, acc) else f"expected {_n(acc)}, got {_n(got)}")
             if msg is None and not _same_shape(got, acc):
                 msg = f"expected {_n(acc)}, got {_n(got)}"
         except Exception as e:  # noqa: BLE001
@@ -326,12 +377,29 @@ def _fold(ops):
     return acc
 
 
+def _peq(pa, pb):
+    if type(pa) is CodeRange and type(pb) is CodeRange:
+        return ((pa.start.index, pa.end.index) == (pb.start.index, pb.end.index)
+                and all(p in (PV(p.index, 0), PV(p.index, 1)) for p in (pa.start, pa.end, pb.start, pb.end)))
+    return pa == pb
+
+
+def _oeq(a, b):
+    """Equality of two origins; two plain code origins are compared by source and indexes, each point being one of the
+    two labelled points this harness uses for that index (the label a hull point carries is unspecified)."""
+    if type(a) is CodeOrigin and type(b) is CodeOrigin:
+        pa, pb = a.position, b.position
+        return (a.source == b.source and (pa.start.index, pa.end.index) == (pb.start.index, pb.end.index)
+                and all(p in (PV(p.index, 0), PV(p.index, 1)) for p in (pa.start, pa.end, pb.start, pb.end)))
+    return a == b
+
+
 def _same_shape(got, exp):
     if isinstance(exp, MultiOrigin):
-        return isinstance(got, MultiOrigin) and len(got.origins) == len(exp.origins) and all(a == b for a, b in zip(got.origins, exp.origins))
+        return isinstance(got, MultiOrigin) and len(got.origins) == len(exp.origins) and all(_oeq(a, b) for a, b in zip(got.origins, exp.origins))
     if exp is NO_ORIGIN:
         return got is NO_ORIGIN
-    return type(got) is type(exp) and got == exp
+    return type(got) is type(exp) and _oeq(got, exp)
 
 
 def plan(tier, seed):
